@@ -165,13 +165,13 @@ REF_PROPS = {
                 clauses=["val", "sh", "const", "grad", "cr", "np_share"], depth=(2, 3), cases=[1, 2, 3, 4, 5, 6],
                 quick_n=700, thorough_n=20000),
     "C04": dict(alphabet=["scal", "view", "setitem", "aug"], profiles=["c04"],
-                clauses=["val", "sh", "const", "share", "base", "np_share"], depth=(2, 3), cases=[1, 2, 3, 4, 5, 6],
+                clauses=["val", "sh", "const", "share", "base", "np_share"], depth=(2, 3), cases=[1, 2, 3, 4, 5, 6, 7, 8],
                 quick_n=900, thorough_n=30000),
     "C05": dict(alphabet=["bin", "scal", "sum", "view", "setitem", "aug"], profiles=["c05"],
-                clauses=["val", "sh", "const", "share", "base", "grad", "np_share"], depth=(2, 3), cases=[1, 2, 3, 5],
+                clauses=["val", "sh", "const", "share", "base", "grad", "np_share"], depth=(2, 3), cases=[1, 2, 3, 5, 7],
                 quick_n=600, thorough_n=20000),
     "C06": dict(alphabet=["bin", "scal", "sum", "view"], profiles=["c06"],
-                clauses=["val", "sh", "base", "grad", "gshare", "np_share"], depth=(2, 3), cases=[1, 2, 4, 6],
+                clauses=["val", "sh", "base", "grad", "gshare", "np_share"], depth=(2, 3), cases=[1, 2, 4, 6, 7, 8],
                 quick_n=700, thorough_n=20000),
     "C07": dict(alphabet=["bin", "scal", "sum", "view", "setitem"], profiles=["c07"],
                 clauses=["val", "sh", "grad", "cr", "released", "leak", "base", "np_share"], depth=(2, 3), cases=[2, 5],
@@ -204,6 +204,10 @@ def check_ref_property(prop: str, tier: str, seed: int) -> int:
         for prof in cfg["profiles"]:
             stage_traces(out, profile=prof, n=cfg["quick_n"] if quick else cfg["thorough_n"], clauses=cfg["clauses"])
         selftest_binding(out, cfg["profiles"][0], cfg["clauses"])
+        if prop == "C14":
+            stage_layer_typing(out, want=("shape", "dtype", "type", "grad"))
+        if prop == "C12":
+            stage_layer_typing(out, want=("seed",))
     except tlc.MachineryError as e:
         out.machinery(str(e)[:3000])
     out.assumptions += [
@@ -476,9 +480,9 @@ def check_C16(tier: str, seed: int) -> int:
     spec = os.path.join(tlc.SPEC, "tables", "Layers.tla")
     #          kind      MaxX MaxW MaxS MaxD MaxP
     bounds = [("sw1", 6, 3, 3, 3, 0), ("sw2", 4, 2, 2, 2, 0), ("conv1", 6, 3, 3, 2, 2), ("conv2", 3, 2, 2, 2, 1),
-              ("pool1", 6, 3, 3, 1, 0), ("pool2", 4, 2, 2, 1, 0)] if quick else \
+              ("pool1", 6, 3, 3, 1, 0), ("pool2", 4, 2, 2, 1, 0), ("losses", 1, 1, 1, 1, 0)] if quick else \
              [("sw1", 9, 4, 4, 3, 0), ("sw2", 5, 3, 2, 2, 0), ("conv1", 8, 3, 3, 3, 2), ("conv2", 4, 2, 2, 2, 1),
-              ("pool1", 9, 4, 4, 1, 0), ("pool2", 5, 3, 3, 1, 0)]
+              ("pool1", 9, 4, 4, 1, 0), ("pool2", 5, 3, 3, 1, 0), ("losses", 1, 1, 1, 1, 0)]
     scratch = tempfile.mkdtemp(prefix="verif-lay-")
     results = {}
 
@@ -877,3 +881,41 @@ def check_C02(tier: str, seed: int) -> int:
     cov["distinct_nontrivial"] = cov["evaluations"]
     cov["trusted_base"] = ["TLC 1.8 / SANY", "CommunityModules Json", "harness/driver.py", "harness/kernels.py (expression evaluator, longdouble)"]
     return out.finish()
+
+
+def stage_layer_typing(out: core.Outcome, want=("shape", "dtype", "type", "grad", "seed")):
+    """nnet layers: gradient typing (C14) / seed untouched (C12) over spec/tables/LayerTyping.tla."""
+    from . import layertyping
+    from .driver import reset_global_state
+
+    rc, o, wall = tlc.run_tlc(os.path.join(tlc.SPEC, "tables", "LayerTyping.tla"),
+                              os.path.join(tlc.SPEC, "tables", "LayerTyping.cfg"), workers=1, timeout=600)
+    st = tlc.parse_stats(o)
+    items, bad = replay.parse_behaviours(o)
+    if rc != 0 or st is None or bad or not items:
+        out.machinery(f"LayerTyping.tla failed rc={rc}: {o[-1000:]}")
+        return
+    out.judged += len(items)
+    nb = 0
+    for it in items:
+        reset_global_state()
+        try:
+            rs = layertyping.run_cell(it)
+        except Exception as e:  # noqa: BLE001
+            rs = [("exception", "none", f"{type(e).__name__}: {str(e)[:100]}", None)]
+        for what, exp, obs, key in rs:
+            if not any(w in what for w in want):
+                continue
+            if key and key in it.get("kf", []) and out.open_kf(key):
+                out.kf_hit(key)
+                continue
+            nb += 1
+            out.violation({"kind": "layer-typing", "cell": it["cell"], "what": what, "expected": exp, "observed": obs},
+                          f"nnet layer {it['cell']['layer']} dtypes {it['cell']['dtypes']}: {what}: expected {exp}, got {obs}")
+    reset_global_state()
+    cov = out.coverage
+    cov["states"] = cov.get("states", 0) + st["distinct"]
+    cov["transitions"] = cov.get("transitions", 0) + st["generated"]
+    cov["layer_typing_cells"] = len(items)
+    cov["layer_typing_disagreeing"] = nb
+    cov["traces_validated_against_impl"] = cov.get("traces_validated_against_impl", 0) + len(items)
